@@ -1,4 +1,7 @@
 /-
+  UPDATE (build round 2): `C10_unordered_le_ordered_statement` and `C10_guarded_statement` are PROVED in Properties/C10UnOrd.lean; non-vacuity of the inequalities in C10Total.lean.
+  (The text below is kept as written in round 1; where it says "missing" / "not proved", see the files above.)
+
   C10 — summary.  `C10_statement` of `C10.lean` has no well-formedness guard and is false
   (`C10_statement_false`, `C10Thm.lean`).  `C10_guarded_statement` is the same statement
   with the guards under which the solvers are specified (binary species tree containing
